@@ -7,7 +7,7 @@ CONSTANTS
   GraphMod = 128
   Decors = {"none", "dangling", "wrong", "null", "direct"}
   DecorMod = 8
-  FunMod = 16
+  FunMod = 24
   OutlineNs = {1, 2}
   Outline1Mod = 1
   OutlineMod = 16
